@@ -17,7 +17,7 @@ Traces == JsonDeserialize(IOEnv.TRACE_FILE)
 VARIABLE tid
 tvars == <<gvars, tid>>
 
-ArgsOf(t) == [mp |-> t.args.mp, numinst |-> t.args.numinst, g |-> Rng(t.args.given),
+ArgsOf(t) == [mp |-> t.args.mp, numinst |-> t.args.numinst, eps |-> [t1 |-> 0, t2 |-> 0], g |-> Rng(t.args.given),
               v |-> [o \in OptNames |-> t.args.v[o]]]
 
 (* clauses of one file, evaluated on the file content read back from text *)
